@@ -387,7 +387,7 @@ func (p *priceSvc) GetPrices(ids []string) (*bothan.GetPricesResponse, error) {
 	}
 	return res, nil
 }
-func (p *priceSvc) GetInfo() (*bothan.GetInfoResponse, error)         { return &bothan.GetInfoResponse{}, nil }
+func (p *priceSvc) GetInfo() (*bothan.GetInfoResponse, error)            { return &bothan.GetInfoResponse{}, nil }
 func (p *priceSvc) UpdateRegistry(ipfsHash string, version string) error { return nil }
 func (p *priceSvc) PushMonitoringRecords(uuid, txHash string) error      { return nil }
 
